@@ -172,7 +172,16 @@ def impl_cli(case):
 def oracle_cli(case, obs):
     rc = obs["rc"]
     if rc not in (0, 1, 2, 3, 4):
-        return f"{case['position']} template {case['t']!r} ends with status {rc}: {obs['err']}"
+        msg = f"{case['position']} template {case['t']!r} ends with status {rc}: {obs['err']}"
+        # known findings K6a/K6b: a tag that is configured correctly but fails on its (here constant) context while the
+        # first file is rendered; matched by the exception the tool reports, every other crash is a violation
+        err = obs["err"]
+        if rc == 126 and ("Unknown error: ValueError invalid literal for int()" in err
+                          or "Unknown error: ValueError could not convert string to float" in err):
+            return msg, {"class": "conversion-tag-on-non-numeric-context"}
+        if rc == 126 and "Unknown error: ExpressionEvaluationError" in err:
+            return msg, {"class": "eval-tag-expression-fails-in-name-template"}
+        return msg
     if rc in (2, 3, 4) and not obs["unchanged"]:
         return f"{case['position']} template {case['t']!r} was rejected (status {rc}) after the tree had been changed"
     if rc == 3 and obs["located"]:
